@@ -5,7 +5,7 @@ import re
 from .core import Outcome, VERIF, crash_signature
 
 NAME = 'allocsim'
-TIMEOUT = 600.0
+TIMEOUT = 2400.0   # a thorough-tier op instance sweeps up to 1500 failure points, each three executions
 SHRINK_LINES = True
 
 _src = open(os.path.join(VERIF, 'exec', 'allocsim.c')).read()
